@@ -633,6 +633,28 @@ pub fn run_table(seed: u64, thorough: bool, n: usize) {
             table_case("E2E", &req, 0, &pats, true, &h, &[host.clone()]);
         }
     }
+    // the patterns of the model-level witness `C09PGEx.tIn2` (Props/C09PGTL.lean: a disciplined MODEL
+    // log over the nested powerset decomposition ending with a two-fallback state): what does the
+    // real loop do with them? Judged by the driver like any other build (wfCheck on the dump).
+    {
+        let req: Vec<Vec<usize>> = vec![vec![]; 4];
+        let c = |p: TPred, a: Vec<usize>| Constraint::try_new(p, a).unwrap();
+        let pats = vec![
+            TPattern { cons: vec![c(TPred::Const(2), vec![3])], extra: None, convertible: true },
+            TPattern { cons: vec![c(TPred::NotIn(1), vec![3, 0]), c(TPred::True(1), vec![1])], extra: None, convertible: true },
+            TPattern {
+                cons: vec![c(TPred::Eq, vec![1, 0]), c(TPred::Eq, vec![3, 1]), c(TPred::NotIn(1), vec![3, 2]), c(TPred::Const(1), vec![1])],
+                extra: None,
+                convertible: true,
+            },
+            TPattern { cons: vec![c(TPred::Eq, vec![3, 3]), c(TPred::Ne, vec![2, 3]), c(TPred::Eq, vec![2, 2])], extra: None, convertible: true },
+        ];
+        let rule = || vec![crate::table::Rule { cond: None, vals: vec![1, 2, 3] }];
+        let host = THost::<HM>::new(true, vec![rule(), rule(), rule(), rule()]);
+        for h in [Heur::Default, Heur::Never, Heur::Custom(vec![true; 64]), Heur::Custom((0..64).map(|i| i % 3 != 1).collect())] {
+            table_case("E2E", &req, 3, &pats, true, &h, &[host.clone()]);
+        }
+    }
     for _ in 0..n {
         let nkeys = rng.range(2, 5);
         let req = random_dag(&mut rng, nkeys, 2);
